@@ -22,9 +22,7 @@ Theorem argmin_generated (l : list ph) : argmin l = gen_argmin l.
 Proof. reflexivity. Qed.
 Theorem argmax_generated (l : list ph) : argmax l = gen_argmax l.
 Proof. reflexivity. Qed.
-Theorem remainder_generated (q : ph) : remainder q = gen_remainder q.
-Proof. reflexivity. Qed.
-(* np.lexsort with the approximate cycle as primary and the remainder as secondary key, stable *)
+(* np.lexsort with the count as primary and the fraction as secondary key, stable *)
 Theorem argsort_generated (l : list ph) :
   argsort l =
   map (fun k => snd k)
